@@ -254,6 +254,10 @@ def _validate(job, target, pr, out):
         return
 
 
+# concrete replays run on the real code when the changed code uses something the engine does not model (harness.finish)
+FALLBACK = [(replay, {"target": t, "dtype": d, "n": 2}) for t in ("oil.b_o_Standing", "oil.solution_gor_Standing", "water.b_water_McCain", "Fluid.water_FVF", "Fluid.oil_FVF", "Fluid.oil_viscosity", "Fluid.water_viscosity") for d in ("f8", "i8")]
+
+
 def jobs(tier):
     # length 3 is the shortest array on which a value vector shorter than the array can be mis-indexed (two selected
     # elements with an unselected one between or before them), so float64 goes to 3 in the quick tier as well
